@@ -447,6 +447,26 @@ def check_mapping(program, rep):
         module = f.module
     v = evrules.beta_reduce(program, _M, v)
     fresh, leftmost = _fresh_merge(v, borrowed, cls)
+    if isinstance(v, ast.Name) and v.id not in borrowed:
+        # `events = dict(<inherited>)` (a copy), then updated in place with the
+        # class's own names: the inherited entries come first, own ones win
+        defs = [n.value for n in ast.walk(dec) if isinstance(n, ast.Assign)
+                and len(n.targets) == 1 and isinstance(
+                    n.targets[0], ast.Name) and n.targets[0].id == v.id]
+        if len(defs) == 1:
+            d0 = defs[0]
+            src = None
+            if isinstance(d0, ast.Call) and dotted(d0.func) == 'dict' \
+                    and len(d0.args) == 1 and not d0.keywords:
+                src = d0.args[0]
+            elif isinstance(d0, ast.Call) and isinstance(
+                    d0.func, ast.Attribute) and d0.func.attr == 'copy' \
+                    and not d0.args:
+                src = d0.func.value
+            elif isinstance(d0, ast.Dict) and d0.keys and d0.keys[0] is None:
+                src = d0.values[0]
+            if src is not None and not _fresh_merge(src, borrowed, cls)[0]:
+                fresh, leftmost = True, True
     rep.check(fresh, 'C03.mapping', site, assigns[0] if assigns else sets[0],
               'cls.__events__ is assigned a fresh mapping',
               'cls.__events__ is assigned the borrowed (inherited) mapping '
